@@ -87,4 +87,55 @@ def DataFrame_update_signature : List String := ["self", "other"]
 /-- the calls of dataiter/data_frame.py: DataFrame.update in the order Python makes them along the source text -/
 def DataFrame_update_call_order : List String := ["self.items", "column.copy", "other.items", "self._reconcile_column", "column.copy"]
 
+/-- dataiter/data_frame.py: DataFrame.rbind (sha256 of the function source: ad5b4741166592ca) -/
+def DataFrame_rbind (truth : Term → Bool) : Out :=
+  let data_frames' : Term := (Term.app "Add" [(Term.app "list" [(Term.sym "self")]), (Term.app "list()" [(Term.sym "others")])]);
+  let colnames' : Term := (Term.app "util.unique_keys" [(Term.app "itertools.chain" [(Term.app "*" [data_frames'])])]);
+  let get_part' : Term := (Term.app "local-def" [(Term.app "def" [(Term.sym "get_part"), (Term.app "params" [(Term.sym "data"), (Term.sym "colname")]), (Term.app "block" [(Term.app "if" [(Term.app "In" [(Term.sym "colname"), (Term.sym "data")]), (Term.app "block" [(Term.app "return" [(Term.app "getitem" [(Term.sym "data"), (Term.sym "colname")])])]), (Term.app "block" [])]), (Term.app "for" [(Term.sym "ref"), data_frames', (Term.app "block" [(Term.app "if" [(Term.app "NotIn" [(Term.sym "colname"), (Term.sym "ref")]), (Term.app "block" [(Term.sym "continue")]), (Term.app "block" [])]), (Term.app "assign" [(Term.sym "value"), (Term.app ".na_value" [(Term.app "getitem" [(Term.sym "ref"), (Term.sym "colname")])])]), (Term.app "assign" [(Term.sym "dtype"), (Term.app ".na_dtype" [(Term.app "getitem" [(Term.sym "ref"), (Term.sym "colname")])])]), (Term.app "return" [(Term.app ".repeat" [(Term.app "Vector.fast" [(Term.app "list" [(Term.sym "value")]), (Term.sym "dtype")]), (Term.app ".nrow" [(Term.sym "data")])])])])])])])]);
+  let eff0 : Term := (Term.app "for" [(Term.sym "colname"), colnames', (Term.app "block" [(Term.app "assign" [(Term.sym "parts"), (Term.app "ListComp" [(Term.app "call" [get_part', (Term.sym "x"), (Term.sym "colname")]), (Term.app "in" [(Term.sym "x"), data_frames', (Term.app "if" [])])])]), (Term.app "assign" [(Term.sym "total"), (Term.app "DataFrameColumn" [(Term.app "np.concatenate" [(Term.sym "parts")])])]), (Term.app "yield" [(Term.app "tuple" [(Term.sym "colname"), (Term.sym "total")])])])]);
+  let parts' : Term := (Term.app "value-after-loop" [(Term.sym "parts"), eff0]);
+  let total' : Term := (Term.app "value-after-loop" [(Term.sym "total"), eff0]);
+  Out.fall [eff0]
+
+/-- the decorators of dataiter/data_frame.py: DataFrame.rbind, outermost first -/
+def DataFrame_rbind_decorators : List String := ["deco.new_from_generator"]
+
+/-- the signature of dataiter/data_frame.py: DataFrame.rbind: parameters in order, with the source text of their defaults -/
+def DataFrame_rbind_signature : List String := ["self", "*others"]
+
+/-- the calls of dataiter/data_frame.py: DataFrame.rbind in the order Python makes them along the source text -/
+def DataFrame_rbind_call_order : List String := ["list", "itertools.chain", "util.unique_keys", "get_part", "np.concatenate", "DataFrameColumn"]
+
+/-- dataiter/data_frame.py: DataFrame.rbind.get_part (sha256 of the function source: d2cf862ef2cd62a4) -/
+def DataFrame_rbind_get_part (truth : Term → Bool) : Out :=
+  if truth (Term.app "In" [(Term.sym "colname"), (Term.sym "data")]) then
+    Out.ret [] (Term.app "getitem" [(Term.sym "data"), (Term.sym "colname")])
+  else
+    let eff0 : Term := (Term.app "for" [(Term.sym "ref"), (Term.sym "data_frames"), (Term.app "block" [(Term.app "if" [(Term.app "NotIn" [(Term.sym "colname"), (Term.sym "ref")]), (Term.app "block" [(Term.sym "continue")]), (Term.app "block" [])]), (Term.app "assign" [(Term.sym "value"), (Term.app ".na_value" [(Term.app "getitem" [(Term.sym "ref"), (Term.sym "colname")])])]), (Term.app "assign" [(Term.sym "dtype"), (Term.app ".na_dtype" [(Term.app "getitem" [(Term.sym "ref"), (Term.sym "colname")])])]), (Term.app "return" [(Term.app ".repeat" [(Term.app "Vector.fast" [(Term.app "list" [(Term.sym "value")]), (Term.sym "dtype")]), (Term.app ".nrow" [(Term.sym "data")])])])])]);
+    let value' : Term := (Term.app "value-after-loop" [(Term.sym "value"), eff0]);
+    let dtype' : Term := (Term.app "value-after-loop" [(Term.sym "dtype"), eff0]);
+    Out.fall [eff0]
+
+/-- the decorators of dataiter/data_frame.py: DataFrame.rbind.get_part, outermost first -/
+def DataFrame_rbind_get_part_decorators : List String := []
+
+/-- the signature of dataiter/data_frame.py: DataFrame.rbind.get_part: parameters in order, with the source text of their defaults -/
+def DataFrame_rbind_get_part_signature : List String := ["data", "colname"]
+
+/-- the calls of dataiter/data_frame.py: DataFrame.rbind.get_part in the order Python makes them along the source text -/
+def DataFrame_rbind_get_part_call_order : List String := ["Vector.fast", "Vector.fast([value], dtype).repeat"]
+
+/-- dataiter/data_frame.py: DataFrame.map (sha256 of the function source: 336f51d47d272d48) -/
+def DataFrame_map (truth : Term → Bool) : Out :=
+  Out.ret [] (Term.app "ListComp" [(Term.app "function" [(Term.sym "self"), (Term.sym "i")]), (Term.app "in" [(Term.sym "i"), (Term.app "range" [(Term.app ".nrow" [(Term.sym "self")])]), (Term.app "if" [])])])
+
+/-- the decorators of dataiter/data_frame.py: DataFrame.map, outermost first -/
+def DataFrame_map_decorators : List String := []
+
+/-- the signature of dataiter/data_frame.py: DataFrame.map: parameters in order, with the source text of their defaults -/
+def DataFrame_map_signature : List String := ["self", "function"]
+
+/-- the calls of dataiter/data_frame.py: DataFrame.map in the order Python makes them along the source text -/
+def DataFrame_map_call_order : List String := ["function", "range"]
+
 end DI.Gen
